@@ -39,8 +39,13 @@ func zzEDS(ns, name, tpl string, canary *datadoghqv1alpha1.ExtendedDaemonSetSpec
 // zzRS builds the replica set the controller itself would create for the template
 // (real newReplicaSetFromInstance), named rsName and owned by ds.
 func zzRS(ds *datadoghqv1alpha1.ExtendedDaemonSet, tpl, rsName string, created time.Time) *datadoghqv1alpha1.ExtendedDaemonSetReplicaSet {
+	return zzRSOf(ds, zzTemplate(tpl), rsName, created)
+}
+
+// zzRSOf: the same for an arbitrary template.
+func zzRSOf(ds *datadoghqv1alpha1.ExtendedDaemonSet, tpl corev1.PodTemplateSpec, rsName string, created time.Time) *datadoghqv1alpha1.ExtendedDaemonSetReplicaSet {
 	tmp := ds.DeepCopy()
-	tmp.Spec.Template = zzTemplate(tpl)
+	tmp.Spec.Template = tpl
 	tmp.Annotations = nil
 	rs, err := newReplicaSetFromInstance(tmp)
 	if err != nil {
